@@ -164,6 +164,9 @@ def has_quant(t):
             continue
         seen.add(i)
         if z3.is_quantifier(x):
+            if x.is_lambda():
+                todo.append(x.body())       # a lambda is a term, not a quantified formula
+                continue
             r = True
             break
         todo.extend(x.children())
